@@ -16,7 +16,7 @@ META = {
                    "token's offset) the flagged constructs and their lines move exactly with the tokens.",
     "assumptions": ["the parser yields the same tree, up to locations, for token-identical re-layouts (trusted)",
                     "string literals are single tokens whose content the detectors compare only as token content (e.g. revert string length)"],
-    "floors": {"R17.text": 6, "R17.signature": 30, "R17.opaque": 3, "R17.comments": 3, "R17.lines": 1},
+    "floors": {"R17.text": 6, "R17.signature": 30, "R17.opaque": 3, "R17.comments": 3, "R17.lines": 1, "R17.asread": 3},
 }
 
 LOC_ACCESSORS = ("Loc::start", "Loc::end", "Loc::begin_range", "Loc::end_range", "Loc::range", "Loc::use_start_from", "Loc::use_end_from", "Loc::file_no", "Loc::try_file_no")
@@ -27,6 +27,7 @@ ORDERING = ("std::cmp::PartialOrd::lt", "std::cmp::PartialOrd::le", "std::cmp::P
 def run(ctx, crate):
     obs = []
     disp = D.all_dispatch(crate)
+    table_forms = []
     for d in disp.values():
         if not d.ok or d.problems:
             obs.append(Ob("R17.text", d.path, "dispatch analysable", False, found=d.problems if d.ok else "missing"))
@@ -34,7 +35,25 @@ def run(ctx, crate):
         b = d.body
         text = ("param", 1)
         uses = []
+        # the line lookup through a table of line-feed positions (C02's table form): when that form is recognised and all its obligations hold, the text's bytes are
+        # looked at by the loop that records the positions of the 0x0A bytes and by nothing else
+        from rules import C02 as _c02t
+        via_ = _c02t.lookup_via(crate, d)
+        tf = _c02t.table_form(crate, d, via_) if (via_ is not None or not any(s.path == D.LINE_FN for s in d.sites)) else None
+        table_ok = tf is not None and all(o.ok for o in tf)
+        if tf is not None:
+            table_forms.append(table_ok)
+            obs.append(Ob("R17.lines", d.path, "the line of a finding is a function of the token's byte offset and the line feeds before it only", table_ok,
+                          expected="1 + number of recorded LF positions before the byte offset", found="table form: %s" % ("recognised" if table_ok else [o.detail for o in tf if not o.ok]),
+                          example="a comment made of multi-byte characters above a flagged construct"))
         for s in d.sites:
+            if table_ok and s.args and s.path.endswith("str>::bytes") and s.args[0] == text:
+                obs.append(Ob("R17.text", d.path, "raw text used by bytes (argument 0)", True, site=s.where,
+                              expected="the text reaches only the parser and the line lookup, unmodified", found="the loop that records the positions of the line feeds (C02's table form)"))
+                continue
+            if table_ok and s.args and any(x[0] == "call" and x[1].endswith("str>::bytes") and x[2] == (text,) for a in s.args for x in T.subterms(a)) \
+                    and s.path.rsplit("::", 1)[-1] in ("enumerate", "next", "push", "into_iter"):
+                continue
             for i, a in enumerate(s.args):
                 if T.contains_outside(a, text, (D.PARSE, D.LINE_FN)) or (s.path in (D.PARSE, D.LINE_FN) and T.contains_outside(a, text, (D.PARSE, D.LINE_FN))):
                     uses.append((s, i))
@@ -68,13 +87,28 @@ def run(ctx, crate):
     # R17.lines: the reported lines move exactly with the tokens: the line lookup counts line-feed bytes before the token's byte offset
     from rules import C02 as _c02
     lb = crate.bodies.get(D.LINE_FN)
-    if lb is None:
+    if table_forms and len(table_forms) == len(disp):
+        pass  # every lookup goes through a table (judged per entry point above)
+    elif lb is None:
         obs.append(Ob("R17.lines", D.LINE_FN, "anchor missing", False))
     else:
         canon, why = _c02.canonical_count(crate, lb)
         obs.append(Ob("R17.lines", D.LINE_FN, "the line of a finding is a function of the token's byte offset and the line feeds before it only", canon,
                       expected="1 + number of LF bytes before the byte offset (so white space, comments and multi-byte characters before a token shift its line exactly)",
                       found=why, example="a comment made of multi-byte characters above a flagged construct"))
+    # R17.asread: the text that is parsed and in which lines are counted is the file's content as it was read: a walker that hands on a trimmed /
+    # rewritten copy reports lines of that copy, not of the file
+    from rules import dirwalk as _dw
+    for w in _dw.walks(crate):
+        if not w.ok:
+            continue
+        for a_site in w.analyze:
+            txt = a_site.args[0] if a_site.args else None
+            raw = T.strip_unwrap(txt) if txt is not None else None
+            ok = raw is not None and T.is_call(raw, "fs::read_to_string") and len(w.reads) == 1 and raw == T.strip_unwrap(w.reads[0].result)
+            obs.append(Ob("R17.asread", w.path, "the text analysed is the file's content as read (no trimming / rewriting on the way)", bool(ok), site=a_site.where,
+                          expected="analyze_for_*(read_to_string(path)?, ..)", found=show(txt)[:120] if txt is not None else None,
+                          example="a file that starts with blank lines"))
     # R17.opaque
     det = D.detector_bodies(crate)
     n_calls = 0
